@@ -658,10 +658,38 @@ def run_case(frames, rng, echo=False, limit=None, end=None, style=None, tag='', 
     return Case('run', line, frames, {'echo': int(echo), 'limit': limit, 'end': end, 'style': style, 'tail': tail.hex()}, w, tag)
 
 
+FPR_FILE = os.path.join(hv.V, 'tools/props/c11_fingerprints.json')
+
+
+def drifted(ctx):
+    """DESIGN section 2, source-drift escalation: the model was written against a known text of the anchored files; when one
+    of them differs, the quick tier runs a sample ten times as large (a changed fingerprint is not an alarm)."""
+    try:
+        known = json.load(open(FPR_FILE))
+    except OSError:
+        return []
+    out = []
+    for rel, h in known.items():
+        try:
+            cur = hashlib.sha256(open(os.path.join(hv.REPO, rel), 'rb').read()).hexdigest()
+        except OSError:
+            cur = None
+        if cur != h:
+            out.append(rel)
+    return out
+
+
 def gen_cases(ctx):
     rng = ctx.rng
     thorough = ctx.tier == 'thorough'
-    cases = []
+    scale = 1
+    if not thorough:
+        d = drifted(ctx)
+        if d:
+            scale = 10
+            ctx.notes.append('source drift: %s differ(s) from the text the model was written against; the quick tier runs a '
+                             'sample 10 times as large' % ', '.join(d))
+            ctx.count('drift-escalation', len(d))
 
     # ---- (a) bounded-exhaustive: every pair of opcodes x FIN, the stream cut at every point of the first header ----
     small = []
@@ -677,7 +705,7 @@ def gen_cases(ctx):
         # quick: one cut point of the first frame per pair (all positions covered across the pairs); thorough: every cut
         for cut in (range(1, len(data)) if thorough else [(i % (len(w0) - 1)) + 1]):
             plan = 'h%s,p2,h%s' % (data[:cut].hex(), data[cut:].hex())
-            cases.append(Case('run', 'c11_run %d - fin %s' % (i % 2, plan), fs, {'echo': i % 2, 'limit': None, 'end': 'fin',
+            yield (Case('run', 'c11_run %d - fin %s' % (i % 2, plan), fs, {'echo': i % 2, 'limit': None, 'end': 'fin',
                                                                                     'style': 'cut%d' % cut, 'tail': ''}, 2, 'exh-pairs'))
     # every k = bytes available at the first non-blocking read, for every opcode
     for op in OPCODES:
@@ -697,15 +725,15 @@ def gen_cases(ctx):
             if not sim.dead:
                 sim.poll(lambda s, need: None)
             closed = sim.results and sim.results[-1] == 'E:closed'
-            cases.append(Case('nb', 'c11_nb ' + ','.join(sim.steps), [f, g],
+            yield (Case('nb', 'c11_nb ' + ','.join(sim.steps), [f, g],
                               {'polls': ';'.join(sim.results), 'out': (sim.out + (b'' if closed else server_frame(CLOSE, b''))).hex(),
                                'ks': sim.ks}, 4, 'exh-nb-k'))
 
     # ---- (b) structured random scripts, blocking ----
-    n_run = 22000 if thorough else 260
+    n_run = 110000 if thorough else 260 * scale
     nbig = 0
     for i in range(n_run):
-        big_ok = nbig < (150 if thorough else 9)
+        big_ok = nbig < (400 if thorough else 9 * scale)
         frames, closes = rand_script(rng, big_ok)
         if any(len(f.payload) > 60000 for f in frames):
             nbig += 1
@@ -713,26 +741,26 @@ def gen_cases(ctx):
         r = rng.random()
         echo = rng.random() < 0.3 and sum(len(f.payload) for f in frames) < 200000
         if closes:
-            cases.append(run_case(frames, rng, echo=echo, end='wait', tag='close'))
+            yield (run_case(frames, rng, echo=echo, end='wait', tag='close'))
         elif r < 0.35 and msgs:
             # server drop after n messages: the stream must stop where the n-th message ends... or go on (unread)
             n = rng.randint(1, len(msgs))
-            cases.append(run_case(frames, rng, echo=echo, limit=n, end='wait', tag='drop'))
+            yield (run_case(frames, rng, echo=echo, limit=n, end='wait', tag='drop'))
         elif r < 0.45:
-            cases.append(run_case(frames, rng, echo=echo, limit=0, end='wait', tag='drop0'))
+            yield (run_case(frames, rng, echo=echo, limit=0, end='wait', tag='drop0'))
         elif r < 0.75:
-            cases.append(run_case(frames, rng, echo=echo, end='fin', tag='eof'))
+            yield (run_case(frames, rng, echo=echo, end='fin', tag='eof'))
         elif r < 0.92:
             # abrupt: the last frame is cut
             last = frames[-1].wire()
             cut = rng.choice([1, 2, 3, len(last) - 1, rng.randrange(1, len(last))])
             cut = max(1, min(cut, len(last) - 1))
-            cases.append(run_case(frames[:-1], rng, echo=echo, end='fin', tag='truncated', tail=last[:cut]))
+            yield (run_case(frames[:-1], rng, echo=echo, end='fin', tag='truncated', tail=last[:cut]))
         else:
-            cases.append(run_case(frames, rng, echo=False, end='rst', tag='rst'))
+            yield (run_case(frames, rng, echo=False, end='rst', tag='rst'))
 
     # ---- (c) malformed stream ----
-    n_mal = 5000 if thorough else 90
+    n_mal = 24000 if thorough else 90 * scale
     for i in range(n_mal):
         frames, closes = rand_script(rng, False, maxframes=8, close_p=0.3)
         kind = rng.choice(['cont-first', 'mixed-opcodes', 'ctrl-nofin', 'ctrl-big', 'unmasked', 'rsv', 'nonminimal', 'reserved-op',
@@ -766,10 +794,10 @@ def gen_cases(ctx):
         elif kind == 'nested-start':
             frames.insert(j, Fr(rng.choice([TEXT, BIN]), rb(rng, 4), 0, rand_key(rng)))
         has_close = any(f.op == CLOSE for f in frames)
-        cases.append(run_case(frames, rng, echo=rng.random() < 0.3, end='wait' if has_close else 'fin', tag='mal-' + kind, tail=tail))
+        yield (run_case(frames, rng, echo=rng.random() < 0.3, end='wait' if has_close else 'fin', tag='mal-' + kind, tail=tail))
 
     # ---- (d) non-blocking, choreographed ----
-    n_nb = 7000 if thorough else 110
+    n_nb = 40000 if thorough else 110 * scale
     for i in range(n_nb):
         frames, closes = rand_script(rng, i % 9 == 0, maxframes=rng.choice([2, 4, 6, 12]))
         if sum(len(f.payload) for f in frames) > 150000:
@@ -784,21 +812,21 @@ def gen_cases(ctx):
             tail = extra[:rng.randrange(1, len(extra))]
         steps, polls, out, ks = nb_case(rng, frames, tail)
         w = 2 + steps.count('w') // 4 + steps.count('q')
-        cases.append(Case('nb', 'c11_nb ' + steps, frames, {'polls': polls, 'out': out.hex(), 'ks': ks, 'tail': tail.hex()}, w, 'nb'))
+        yield (Case('nb', 'c11_nb ' + steps, frames, {'polls': polls, 'out': out.hex(), 'ks': ks, 'tail': tail.hex()}, w, 'nb'))
 
     # ---- (e) non-blocking, free-running ----
-    n_free = 3000 if thorough else 44
+    n_free = 12000 if thorough else 44 * scale
     for i in range(n_free):
         frames, closes = rand_script(rng, False, maxframes=rng.choice([3, 6, 12]))
         style = rng.choice(['headers', 'hdrbytes', 'random', 'frames', 'bytewise'])
         if style == 'bytewise' and sum(len(f.payload) + 14 for f in frames) > 300:
             style = 'headers'
         plan = plan_of(rng, segments(rng, frames, style))
-        cases.append(Case('nbfree', 'c11_nbfree %d %s' % (rng.choice([1, 1, 2, 5]), plan), frames, {'style': style},
+        yield (Case('nbfree', 'c11_nbfree %d %s' % (rng.choice([1, 1, 2, 5]), plan), frames, {'style': style},
                           3 + plan.count(',p') * 3, 'nbfree'))
 
     # ---- (f) handshakes through the real App ----
-    n_hs = 3000 if thorough else 60
+    n_hs = 14000 if thorough else 60 * scale
     post_frames = [Fr(TEXT, b'hi', 1, b'\x01\x02\x03\x04'), Fr(PING, b'p', 1, b'\xff\x00\xff\x00'), Fr(CLOSE, b'\x03\xe8', 1, b'\x0a\x0b\x0c\x0d')]
     post = b''.join(f.wire() for f in post_frames)
     for i in range(n_hs):
@@ -816,9 +844,8 @@ def gen_cases(ctx):
             elif r < 0.38:
                 upgrade, expect = rng.choice([b'WebSocket', b'h2c', None]), 'plain'
         req = http_request(key, name, extra, upgrade)
-        cases.append(Case('hs', 'c11_hs %s %s' % (hx(req), hx(post)), post_frames,
+        yield (Case('hs', 'c11_hs %s %s' % (hx(req), hx(post)), post_frames,
                           {'key': key.hex() if key is not None else None, 'expect': expect}, 3, 'hs-' + expect))
-    return cases
 
 
 def load_corpus():
@@ -991,21 +1018,32 @@ def coq_crosscheck(ctx, cases, model):
 
 
 def run(ctx):
-    rng = ctx.rng
+    import itertools
     if ctx.replay:
-        cases = [Case.of_json(ctx.replay['case'])]
-    else:
-        cases = load_corpus()
-        ctx.count('corpus', len(cases))
-        cases += gen_cases(ctx)
+        process(ctx, [Case.of_json(ctx.replay['case'])], set(), True)
+        return
+    corpus = load_corpus()
+    ctx.count('corpus', len(corpus))
+    stream = itertools.chain(corpus, gen_cases(ctx))
+    sampled = set()
+    first = True
+    while True:
+        batch = list(itertools.islice(stream, 12000))
+        if not batch:
+            break
+        process(ctx, batch, sampled, first)
+        first = False
+
+
+def process(ctx, cases, sampled, first):
+    rng = ctx.rng
     lines = [c.line for c in cases]
     model = run_sharded(hv.MODEL_BIN, lines, [c.weight for c in cases])
     impl = run_sharded(hv.IMPL_BIN, lines, [c.weight for c in cases])
     ctx.evaluations += len(lines)
     oldnote = old_behaviour(cases, model, impl)
-    if not ctx.replay:
+    if first and not ctx.replay:
         coq_crosscheck(ctx, cases, model)
-    sampled = set()
     for c, a, b in zip(cases, model, impl):
         cj = c.to_json()
         ctx.count(c.kind + ':' + c.tag)
